@@ -529,3 +529,307 @@ Proof.
   - rewrite (X idx (or_introl eq_refl)). reflexivity.
   - rewrite (nth_error_ext _ _ (fun j => X j (or_intror eq_refl))). reflexivity.
 Qed.
+
+Lemma same_from_keys idx ks c c' j :
+  option_map in_key (nth_error (mapi (tmp_in (sc_code c) idx ks) 0 (tx_ins (sc_tx c))) j)
+  = option_map in_key (nth_error (mapi (tmp_in (sc_code c') idx ks) 0 (tx_ins (sc_tx c'))) j) ->
+  same_at ti_hash c c' j /\ same_at ti_index c c' j
+  /\ (Nat.eqb j idx || ks = true -> same_at ti_seq c c' j)
+  /\ (j = idx -> (idx < length (tx_ins (sc_tx c)))%nat -> sc_code c = sc_code c').
+Proof.
+  rewrite !nth_error_mapi. cbn [plus]. unfold same_at.
+  destruct (nth_error (tx_ins (sc_tx c)) j) as [x|] eqn:E, (nth_error (tx_ins (sc_tx c')) j) as [x'|] eqn:E';
+    cbn; intros H; try discriminate.
+  - injection H as Eh Ei Es Eq. rewrite Eh, Ei. repeat split; auto.
+    + intros B. rewrite B in Eq. now rewrite Eq.
+    + intros -> _. rewrite Nat.eqb_refl in Es. exact Es.
+  - repeat split; auto. intros -> L. apply nth_error_None in E. lia.
+Qed.
+
+Lemma tmp_pick_wf ht idx ins l : Forall wf_in ins -> tmp_pick ht idx ins = Ret l -> Forall wf_in l.
+Proof.
+  unfold tmp_pick. intros W. destruct (ht_acp ht).
+  - destruct (nth_error ins idx) eqn:E; [|discriminate]. intros H; injection H as <-.
+    constructor; [|constructor]. rewrite Forall_forall in W. apply W. eapply nth_error_In; eauto.
+  - intros H; injection H as <-. exact W.
+Qed.
+
+Lemma tmp_ins_wf sc idx ks ins : Forall wf_in ins -> Forall wf_in (mapi (tmp_in sc idx ks) 0 ins).
+Proof. apply Forall_mapi. intros k x H. exact H. Qed.
+
+Lemma tmp_outs_inj ht idx c c' l :
+  tmp_outs ht idx (tx_outs (sc_tx c)) = Some l -> tmp_outs ht idx (tx_outs (sc_tx c')) = Some l ->
+  if ht_none ht then True
+  else if ht_single ht then
+    has_output idx c = has_output idx c' /\ nth_error (tx_outs (sc_tx c)) idx = nth_error (tx_outs (sc_tx c')) idx
+  else tx_outs (sc_tx c) = tx_outs (sc_tx c').
+Proof.
+  unfold tmp_outs, has_output. destruct (ht_none ht); [auto|]. destruct (ht_single ht).
+  - destruct (nth_error (tx_outs (sc_tx c)) idx) as [o|] eqn:E; [|discriminate].
+    destruct (nth_error (tx_outs (sc_tx c')) idx) as [o'|] eqn:E'; [|discriminate].
+    intros H H'. rewrite <- H in H'. injection H' as H'. apply app_inv_head in H'. injection H' as ->.
+    split; [|reflexivity].
+    assert (idx < length (tx_outs (sc_tx c)))%nat by (apply nth_error_Some; congruence).
+    assert (idx < length (tx_outs (sc_tx c')))%nat by (apply nth_error_Some; congruence).
+    apply Nat.ltb_lt in H0, H1. now rewrite H0, H1.
+  - intros H H'. congruence.
+Qed.
+
+Lemma tmp_outs_none ht idx c :
+  tmp_outs ht idx (tx_outs (sc_tx c)) = None ->
+  ht_none ht = false /\ ht_single ht = true /\ has_output idx c = false
+  /\ nth_error (tx_outs (sc_tx c)) idx = None.
+Proof.
+  unfold tmp_outs, has_output. destruct (ht_none ht); [discriminate|]. destruct (ht_single ht); [|discriminate].
+  destruct (nth_error _ idx) eqn:E; [discriminate|]. intros _. repeat split; auto.
+  apply nth_error_None in E. now apply Nat.ltb_ge.
+Qed.
+
+Lemma legacy_injective ht idx c c' o :
+  wf_tx (sc_tx c) -> wf_tx (sc_tx c') ->
+  (idx < length (tx_ins (sc_tx c)))%nat -> (idx < length (tx_ins (sc_tx c')))%nat ->
+  legacy_fed_of (sc_tx c) (sc_code c) idx ht = Ret o ->
+  legacy_fed_of (sc_tx c') (sc_code c') idx ht = Ret o ->
+  facts SV_legacy ht idx c c'.
+Proof.
+  intros W W' L L' H H'. unfold legacy_fed_of in H, H'. rewrite legacy_tmp_tx_eq in H, H'.
+  destruct (tmp_outs ht idx (tx_outs (sc_tx c))) as [l|] eqn:TO;
+  destruct (tmp_outs ht idx (tx_outs (sc_tx c'))) as [l'|] eqn:TO'.
+  - destruct (tmp_pick ht idx (mapi (tmp_in (sc_code c) idx (keep_seq ht)) 0 (tx_ins (sc_tx c)))) as [l0| |] eqn:P;
+      cbn [bind] in H; try discriminate.
+    destruct (tmp_pick ht idx (mapi (tmp_in (sc_code c') idx (keep_seq ht)) 0 (tx_ins (sc_tx c')))) as [l0'| |] eqn:P';
+      cbn [bind] in H'; try discriminate.
+    inv_bind_as H b Hb. injection H as <-. inv_bind_as H' b' Hb'. injection H' as <-.
+    assert (W0 : wf_tx (mk_tx (tx_version (sc_tx c)) l0 l (tx_lock (sc_tx c)))).
+    { unfold wf_tx; cbn. eapply tmp_pick_wf; [|exact P]. now apply tmp_ins_wf. }
+    assert (W0' : wf_tx (mk_tx (tx_version (sc_tx c')) l0' l' (tx_lock (sc_tx c')))).
+    { unfold wf_tx; cbn. eapply tmp_pick_wf; [|exact P']. now apply tmp_ins_wf. }
+    destruct (hash_input_inj _ _ _ _ _ W0 W0' Hb Hb') as [K _].
+    unfold tx_key in K; cbn [tx_version tx_ins tx_outs tx_lock] in K. injection K as Ev Ei Eo El. subst l'.
+    assert (Y : forall j, j = idx \/ ht_acp ht = false ->
+      option_map in_key (nth_error (mapi (tmp_in (sc_code c) idx (keep_seq ht)) 0 (tx_ins (sc_tx c))) j)
+      = option_map in_key (nth_error (mapi (tmp_in (sc_code c') idx (keep_seq ht)) 0 (tx_ins (sc_tx c'))) j)).
+    { intros j Hj. unfold tmp_pick in P, P'. destruct (ht_acp ht) eqn:Ha.
+      - destruct Hj as [->|Hj]; [|discriminate].
+        destruct (nth_error _ idx) as [x0|]; [|discriminate]. injection P as <-.
+        destruct (nth_error _ idx) as [x0'|]; [|discriminate]. injection P' as <-.
+        cbn [map] in Ei. cbn [option_map]. congruence.
+      - injection P as <-. injection P' as <-. rewrite <- !nth_error_map. now rewrite Ei. }
+    constructor.
+    + intros _. refine (conj Ev (conj El (conj _ (conj _ (conj _ _))))).
+      * destruct (same_from_keys _ _ _ _ _ (Y idx (or_introl eq_refl))) as (_ & _ & _ & S). now apply S.
+      * intros Ha. unfold tmp_pick in P, P'. rewrite Ha in P, P'. injection P as <-. injection P' as <-.
+        apply (f_equal (@length _)) in Ei. now rewrite !map_length, !mapi_length in Ei.
+      * intros j Hj. destruct (same_from_keys _ _ _ _ _ (Y j Hj)) as (S1 & S2 & _). auto.
+      * intros j Hj.
+        assert (Hj' : j = idx \/ ht_acp ht = false) by (destruct Hj as [Hj|[Hj _]]; auto).
+        destruct (same_from_keys _ _ _ _ _ (Y j Hj')) as (_ & _ & S & _). apply S.
+        destruct Hj as [->|[_ Hk]]; [now rewrite Nat.eqb_refl|rewrite Hk; apply orb_true_r].
+    + discriminate.
+    + exact (tmp_outs_inj _ _ _ _ _ TO TO').
+  - exfalso. destruct (tmp_pick ht idx _) as [l0| |]; cbn [bind] in H; try discriminate.
+    inv_bind_as H b Hb. cbn [bind] in H'. congruence.
+  - exfalso. destruct (tmp_pick ht idx _) as [l0| |]; cbn [bind] in H'; try discriminate.
+    inv_bind_as H' b Hb. cbn [bind] in H. congruence.
+  - destruct (tmp_outs_none _ _ _ TO) as (Hn & Hs & Ho & En).
+    destruct (tmp_outs_none _ _ _ TO') as (_ & _ & Ho' & En').
+    constructor.
+    + unfold live. rewrite Hs, Ho. discriminate.
+    + discriminate.
+    + rewrite Hn, Hs. split; congruence.
+Qed.
+
+(* ---- 5. BIP143 --------------------------------------------------------------------------------------------- *)
+Lemma same_at_of_map {A} (f : txin -> A) c c' :
+  map f (tx_ins (sc_tx c)) = map f (tx_ins (sc_tx c')) -> forall j, same_at f c c' j.
+Proof. intros H j. unfold same_at. rewrite <- !nth_error_map. now rewrite H. Qed.
+
+Lemma same_at_some {A} (f : txin -> A) c c' j x x' :
+  same_at f c c' j -> nth_error (tx_ins (sc_tx c)) j = Some x -> nth_error (tx_ins (sc_tx c')) j = Some x' -> f x = f x'.
+Proof. unfold same_at. intros H E E'. rewrite E, E' in H. cbn in H. now injection H. Qed.
+
+Lemma seq_none_iff ht :
+  (is_acp ht || (N.land ht gen06_mask_sequence =? gen06_sighash_single)
+   || (N.land ht gen06_mask_sequence =? gen06_sighash_none)) = negb (negb (ht_acp ht) && keep_seq ht).
+Proof.
+  change (is_acp ht) with (ht_acp ht).
+  change (N.land ht gen06_mask_sequence =? gen06_sighash_single) with (ht_single ht).
+  change (N.land ht gen06_mask_sequence =? gen06_sighash_none) with (ht_none ht).
+  unfold keep_seq. destruct (ht_acp ht), (ht_single ht), (ht_none ht); reflexivity.
+Qed.
+
+Lemma segwit_invariant ht idx c c' :
+  facts SV_bip143 ht idx c c' ->
+  segwit_fed_of (sc_tx c) (sc_code c) (sc_amount c) idx ht
+  = segwit_fed_of (sc_tx c') (sc_code c') (sc_amount c') idx ht.
+Proof.
+  intros [FL FA FO]. destruct (FL eq_refl) as (Ev & El & Esc & Elen & Eho & Eseq). specialize (FA eq_refl).
+  assert (P : prevouts_blob (sc_tx c) ht = prevouts_blob (sc_tx c') ht).
+  { unfold prevouts_blob. change (is_acp ht) with (ht_acp ht). destruct (ht_acp ht) eqn:Ha; [reflexivity|].
+    rewrite (concatM_ext prevout_entry prevout_entry (tx_ins (sc_tx c)) (tx_ins (sc_tx c'))); auto.
+    intros j x x' E E'. destruct (Eho j (or_intror eq_refl)) as [S1 S2]. unfold prevout_entry.
+    now rewrite (same_at_some _ _ _ _ _ _ S1 E E'), (same_at_some _ _ _ _ _ _ S2 E E'). }
+  assert (S : sequences_blob (sc_tx c) ht = sequences_blob (sc_tx c') ht).
+  { unfold sequences_blob. rewrite seq_none_iff.
+    destruct (ht_acp ht) eqn:Ha; [reflexivity|]. destruct (keep_seq ht) eqn:Hk; [|reflexivity]. cbn [negb andb].
+    rewrite (concatM_ext sequence_entry sequence_entry (tx_ins (sc_tx c)) (tx_ins (sc_tx c'))); auto.
+    intros j x x' E E'. unfold sequence_entry.
+    now rewrite (same_at_some _ _ _ _ _ _ (Eseq j (or_intror (conj eq_refl eq_refl))) E E'). }
+  assert (O : outputs_blob (sc_tx c) ht idx = outputs_blob (sc_tx c') ht idx).
+  { unfold outputs_blob.
+    change (N.land ht gen06_mask_outputs =? gen06_sighash_single) with (ht_single ht).
+    change (N.land ht gen06_mask_outputs =? gen06_sighash_none) with (ht_none ht).
+    destruct (ht_none ht) eqn:Hn.
+    - rewrite (none_single_excl _ Hn). reflexivity.
+    - destruct (ht_single ht).
+      + destruct FO as [_ E]. now rewrite E.
+      + now rewrite FO. }
+  unfold segwit_fed_of. rewrite Ev, P, S, O, Esc, FA, El.
+  destruct (Eho idx (or_introl eq_refl)) as [S1 S2]. pose proof (Eseq idx (or_introl eq_refl)) as S3.
+  unfold same_at in S1, S2, S3.
+  destruct (nth_error (tx_ins (sc_tx c)) idx) as [x|], (nth_error (tx_ins (sc_tx c')) idx) as [x'|];
+    cbn in S1, S2, S3; try discriminate; [|reflexivity].
+  injection S1 as ->. injection S2 as ->. injection S3 as ->. reflexivity.
+Qed.
+
+Lemma segwit_injective ht idx c c' f :
+  wf_tx (sc_tx c) -> wf_tx (sc_tx c') ->
+  segwit_fed_of (sc_tx c) (sc_code c) (sc_amount c) idx ht = Ret f ->
+  segwit_fed_of (sc_tx c') (sc_code c') (sc_amount c') idx ht = Ret f ->
+  facts SV_bip143 ht idx c c'.
+Proof.
+  intros W W' H H'. unfold segwit_fed_of in H, H'.
+  inv_bind_as H v Hv. inv_bind_as H hp Hhp. inv_bind_as H hs Hhs.
+  destruct (nth_error (tx_ins (sc_tx c)) idx) as [x|] eqn:Ex; [|discriminate].
+  inv_bind_as H pi Hpi. inv_bind_as H sc Hsc. inv_bind_as H am Ham. inv_bind_as H sq Hsq.
+  inv_bind_as H ho Hho. inv_bind_as H lk Hlt. inv_bind_as H hb Hhb. injection H as <-.
+  inv_bind_as H' v' Hv'. inv_bind_as H' hp' Hhp'. inv_bind_as H' hs' Hhs'.
+  destruct (nth_error (tx_ins (sc_tx c')) idx) as [x'|] eqn:Ex'; [|discriminate].
+  inv_bind_as H' pi' Hpi'. inv_bind_as H' sc' Hsc'. inv_bind_as H' am' Ham'. inv_bind_as H' sq' Hsq'.
+  inv_bind_as H' ho' Hho'. inv_bind_as H' lk' Hlt'. inv_bind_as H' hb' Hhb'.
+  injection H' as Ehd Ehp Ehs Emid Eho Etl. subst v' hp' hs' ho'.
+  (* head, mid, tail *)
+  assert (Ev : tx_version (sc_tx c) = tx_version (sc_tx c')).
+  { assert (E : v ++ [] = v ++ []) by reflexivity.
+    now destruct (write_le_pinj _ _ _ _ _ _ _ I I Hv Hv' E). }
+  assert (El : tx_lock (sc_tx c) = tx_lock (sc_tx c')).
+  { rewrite <- (app_nil_r (lk' ++ hb')), <- (app_nil_r (lk ++ hb)) in Etl. rewrite <- !app_assoc in Etl.
+    symmetry in Etl. now destruct (write_le_pinj _ _ _ _ _ _ _ I I Hlt Hlt' Etl). }
+  assert (Wx : wf_in x) by (unfold wf_tx in W; rewrite Forall_forall in W; apply W; eapply nth_error_In; eauto).
+  assert (Wx' : wf_in x') by (unfold wf_tx in W'; rewrite Forall_forall in W'; apply W'; eapply nth_error_In; eauto).
+  assert (Em : ti_hash x = ti_hash x' /\ ti_index x = ti_index x' /\ sc_code c = sc_code c'
+               /\ sc_amount c = sc_amount c' /\ ti_seq x = ti_seq x').
+  { rewrite <- (app_nil_r (ti_hash x' ++ _)), <- (app_nil_r (ti_hash x ++ _)) in Emid. rewrite <- !app_assoc in Emid.
+    symmetry in Emid. apply app_inj_len in Emid; [|unfold wf_in in *; lia]. destruct Emid as [Eh E2].
+    destruct (write_le_pinj _ _ _ _ _ _ _ I I Hpi Hpi' E2) as [Ei E3].
+    destruct (varstr_pinj _ _ _ _ _ _ I I Hsc Hsc' E3) as [Es E4].
+    destruct (write_le_pinj _ _ _ _ _ _ _ I I Ham Ham' E4) as [Ea E5].
+    destruct (write_le_pinj _ _ _ _ _ _ _ I I Hsq Hsq' E5) as [Eq _]. auto. }
+  destruct Em as (Eh & Ei & Esc & Ea & Eq).
+  assert (Own : forall {A} (g : txin -> A), g x = g x' -> same_at g c c' idx).
+  { intros A g Hg. unfold same_at. rewrite Ex, Ex'. cbn. now rewrite Hg. }
+  constructor.
+  - intros _. refine (conj Ev (conj El (conj Esc (conj _ (conj _ _))))).
+    + intros Ha. unfold prevouts_blob in Hhp, Hhp'. change (is_acp ht) with (ht_acp ht) in Hhp, Hhp'.
+      rewrite Ha in Hhp, Hhp'. inv_bind_as Hhp b Hb. injection Hhp as <-. inv_bind_as Hhp' b' Hb'.
+      injection Hhp' as <-.
+      pose proof (concatM_inj_whole wf_in prevout_entry outpoint_key prevout_entry_pinj prevout_entry_nonempty
+                    _ _ _ W W' Hb Hb') as M.
+      apply (f_equal (@length _)) in M. now rewrite !map_length in M.
+    + intros j [->|Ha]; [split; apply Own; auto|].
+      unfold prevouts_blob in Hhp, Hhp'. change (is_acp ht) with (ht_acp ht) in Hhp, Hhp'.
+      rewrite Ha in Hhp, Hhp'. inv_bind_as Hhp b Hb. injection Hhp as <-. inv_bind_as Hhp' b' Hb'.
+      injection Hhp' as <-.
+      pose proof (concatM_inj_whole wf_in prevout_entry outpoint_key prevout_entry_pinj prevout_entry_nonempty
+                    _ _ _ W W' Hb Hb') as M.
+      split.
+      * apply (same_at_of_map ti_hash). apply (f_equal (map fst)) in M. now rewrite !map_map in M.
+      * apply (same_at_of_map ti_index). apply (f_equal (map snd)) in M. now rewrite !map_map in M.
+    + intros j [->|[Ha Hk]]; [apply Own; auto|].
+      unfold sequences_blob in Hhs, Hhs'. rewrite seq_none_iff, Ha, Hk in Hhs, Hhs'. cbn [negb andb] in Hhs, Hhs'.
+      inv_bind_as Hhs b Hb. injection Hhs as <-. inv_bind_as Hhs' b' Hb'. injection Hhs' as <-.
+      apply (same_at_of_map ti_seq).
+      exact (concatM_inj_whole any sequence_entry ti_seq sequence_entry_pinj sequence_entry_nonempty
+               _ _ _ (Forall_any _) (Forall_any _) Hb Hb').
+  - intros _. exact Ea.
+  - unfold outputs_blob in Hho, Hho'.
+    change (N.land ht gen06_mask_outputs =? gen06_sighash_single) with (ht_single ht) in Hho, Hho'.
+    change (N.land ht gen06_mask_outputs =? gen06_sighash_none) with (ht_none ht) in Hho, Hho'.
+    destruct (ht_none ht) eqn:Hn; [exact I|]. destruct (ht_single ht) eqn:Hs.
+    + unfold has_output.
+      destruct (nth_error (tx_outs (sc_tx c)) idx) as [o|] eqn:Eo;
+      destruct (nth_error (tx_outs (sc_tx c')) idx) as [o'|] eqn:Eo'.
+      * inv_bind_as Hho b Hb. injection Hho as <-. inv_bind_as Hho' b' Hb'. injection Hho' as <-.
+        pose proof (concatM_inj_whole any stream_txout (fun o => o) stream_txout_pinj stream_txout_nonempty
+                      _ _ _ (Forall_any _) (Forall_any _) Hb Hb') as M.
+        cbn in M. injection M as ->.
+        assert (idx < length (tx_outs (sc_tx c)))%nat by (apply nth_error_Some; congruence).
+        assert (idx < length (tx_outs (sc_tx c')))%nat by (apply nth_error_Some; congruence).
+        apply Nat.ltb_lt in H, H0. now rewrite H, H0.
+      * exfalso. inv_bind_as Hho b Hb. congruence.
+      * exfalso. inv_bind_as Hho' b Hb. congruence.
+      * apply nth_error_None in Eo, Eo'. apply Nat.ltb_ge in Eo, Eo'. now rewrite Eo, Eo'.
+    + inv_bind_as Hho b Hb. injection Hho as <-. inv_bind_as Hho' b' Hb'. injection Hho' as <-.
+      pose proof (concatM_inj_whole any stream_txout (fun o => o) stream_txout_pinj stream_txout_nonempty
+                    _ _ _ (Forall_any _) (Forall_any _) Hb Hb') as M.
+      now rewrite !map_id in M.
+Qed.
+
+(* ---- 6. the two directions, for both signature versions ------------------------------------------------------ *)
+Definition in_range (idx : nat) (c : sctx) : Prop := (idx < length (tx_ins (sc_tx c)))%nat.
+Definition wf_ctx (c : sctx) : Prop := wf_tx (sc_tx c).
+
+Theorem commitment_injective sv ht idx c c' f :
+  wf_ctx c -> wf_ctx c' -> in_range idx c -> in_range idx c' ->
+  fed_of sv ht idx c = Ret f -> fed_of sv ht idx c' = Ret f ->
+  agree sv ht idx c c'.
+Proof.
+  intros W W' L L' H H'. apply facts_agree. destruct sv; unfold fed_of in H, H'.
+  - inv_bind_as H o Ho. inv_bind_as H' o' Ho'.
+    assert (o = o') by (destruct o, o'; congruence). subst o'.
+    eapply legacy_injective; eauto.
+  - inv_bind_as H s Hs. inv_bind_as H' s' Hs'. assert (s = s') by congruence. subst s'.
+    eapply segwit_injective; eauto.
+Qed.
+
+Theorem uncommitted_invariant sv ht idx c c' :
+  agree sv ht idx c c' -> fed_of sv ht idx c = fed_of sv ht idx c'.
+Proof.
+  intros H. apply agree_facts in H. destruct sv; unfold fed_of.
+  - unfold legacy_fed_of. now rewrite (legacy_invariant _ _ _ _ H).
+  - now rewrite (segwit_invariant _ _ _ _ H).
+Qed.
+
+(* the hash type itself is part of what is hashed *)
+Lemma fed_binds_hash_type sv ht ht' idx c c' f :
+  wf_ctx c -> wf_ctx c' -> f <> Fed_none ->
+  fed_of sv ht idx c = Ret f -> fed_of sv ht' idx c' = Ret f -> ht = ht'.
+Proof.
+  intros W W' NF H H'. destruct sv; unfold fed_of in H, H'.
+  - inv_bind_as H o Ho. inv_bind_as H' o' Ho'.
+    destruct o as [b|]; [|congruence]. destruct o' as [b'|]; [|congruence].
+    assert (b = b') by congruence. subst b'.
+    unfold legacy_fed_of in Ho, Ho'. rewrite legacy_tmp_tx_eq in Ho, Ho'.
+    destruct (tmp_outs ht idx _) as [l|]; [|discriminate].
+    destruct (tmp_outs ht' idx _) as [l'|]; [|discriminate].
+    destruct (tmp_pick ht idx _) as [l0| |] eqn:P; cbn [bind] in Ho; try discriminate.
+    destruct (tmp_pick ht' idx _) as [l0'| |] eqn:P'; cbn [bind] in Ho'; try discriminate.
+    inv_bind_as Ho x Hx. injection Ho as ->. inv_bind_as Ho' x' Hx'. injection Ho' as ->.
+    eapply hash_input_inj; [| |exact Hx|exact Hx'].
+    + unfold wf_tx; cbn. eapply tmp_pick_wf; [|exact P]. now apply tmp_ins_wf.
+    + unfold wf_tx; cbn. eapply tmp_pick_wf; [|exact P']. now apply tmp_ins_wf.
+  - inv_bind_as H s Hs. inv_bind_as H' s' Hs'. assert (s = s') by congruence. subst s'.
+    unfold segwit_fed_of in Hs, Hs'.
+    inv_bind_as Hs v Hv. inv_bind_as Hs hp Hhp. inv_bind_as Hs hs Hhs.
+    destruct (nth_error (tx_ins (sc_tx c)) idx) as [x|] eqn:Ex; [|discriminate].
+    inv_bind_as Hs pi Hpi. inv_bind_as Hs sc Hsc. inv_bind_as Hs am Ham. inv_bind_as Hs sq Hsq.
+    inv_bind_as Hs ho Hho. inv_bind_as Hs lk Hlt. inv_bind_as Hs hb Hhb. injection Hs as <-.
+    inv_bind_as Hs' v' Hv'. inv_bind_as Hs' hp' Hhp'. inv_bind_as Hs' hs' Hhs'.
+    destruct (nth_error (tx_ins (sc_tx c')) idx) as [x'|] eqn:Ex'; [|discriminate].
+    inv_bind_as Hs' pi' Hpi'. inv_bind_as Hs' sc' Hsc'. inv_bind_as Hs' am' Ham'. inv_bind_as Hs' sq' Hsq'.
+    inv_bind_as Hs' ho' Hho'. inv_bind_as Hs' lk' Hlt'. inv_bind_as Hs' hb' Hhb'.
+    injection Hs' as _ _ _ _ _ Etl.
+    rewrite <- (app_nil_r (lk' ++ hb')), <- (app_nil_r (lk ++ hb)) in Etl. rewrite <- !app_assoc in Etl.
+    symmetry in Etl. destruct (write_le_pinj _ _ _ _ _ _ _ I I Hlt Hlt' Etl) as [_ E].
+    now destruct (write_le_pinj _ _ _ _ _ _ _ I I Hhb Hhb' E).
+Qed.
